@@ -129,7 +129,8 @@ def family():
     # ---- thorough-only members
     F['S9'] = schema(
         types=[stype('ta', [key('+', attr='mp', required=True)])],
-        items=[multikey('+', attr='mm', dt='integer', required=True), key('ka'),
+        items=[multikey('+', attr='mm', dt='integer', required=True, defaults=[('da', '1'), ('da', '2')]),
+               key('ka'),
                multisection('ta', '*', attr='ms')])
     F['S10'] = schema(
         types=[('abstract', 'aa'), ('abstract', 'ab'),
